@@ -1708,6 +1708,10 @@ class Interp:
                 return [(DictV(()), s)]
             if n == "type" and len(args) == 1:
                 return [(App("type", args, (), 0), s)]
+            if n in ("any", "all") and len(args) == 1 and isinstance(args[0], ListV) and not args[0].open:
+                ts = [self.truth(x) for x in args[0].items]
+                if all(t is not None for t in ts):
+                    return [(Const(any(ts) if n == "any" else all(ts)), s)]
             if n in ("enumerate", "zip", "zip_longest", "reversed", "range", "iter", "next", "min", "max", "sum",
                      "any", "all", "hash", "id", "int", "float", "repr", "print", "deepcopy"):
                 if n in ("next", "int", "float", "min", "max"):
